@@ -15,7 +15,8 @@ Inductive aop :=
 | OGet (i : idx) | OSet (i : idx) (v : val) | OSetSlice (a b c : option Z) (vs : vals)
 | ODel (i : idx) | OInsert (i : option Z) (v : val) | OAppend (v : val) | OExtend (vs : vals) | OIadd (vs : vals)
 | OPop (i : option Z) (bad : bool) | ORemove (v : val) | OReverse | OClear | OIndex (v : val) | OCount (v : val)
-| OLen | OIter.
+| OLen | OIter
+| OEq (other : list Z).          (* self == an array holding [other]: np.array_equal *)
 
 Inductive out := ONone | OVal (t : Z) | OList (l : list Z) | OInt (n : Z).
 
@@ -140,6 +141,7 @@ Definition step (l : list Z) (op : aop) : res out * list Z :=
   | OCount v => (Ok (OInt (match v with VBad => 0 | VElem t => l_count l t end)), l)
   | OLen => (Ok (OInt (len l)), l)
   | OIter => (Ok (OList l), l)
+  | OEq other => (Ok (OInt (if list_eqb Z.eqb l other then 1 else 0)), l)
   end.
 
 (* --- the spec: a Python list subjected to the same operation; wrong-typed elements / indices are
@@ -187,4 +189,5 @@ Definition spec_step (l : list Z) (op : aop) : res out * list Z :=
   | OCount VBad => (Ok (OInt 0), l)
   | OLen => (Ok (OInt (len l)), l)
   | OIter => (Ok (OList l), l)
+  | OEq other => (Ok (OInt (if list_eqb Z.eqb l other then 1 else 0)), l)
   end.
